@@ -191,7 +191,10 @@ static int give_uid_to_object (object_t * ob) {
         }
 
 #ifdef AUTO_TRUST_BACKBONE
-      if (backbone_uid && !strcmp (backbone_uid->name, creator_name))
+      /* Only a creator that has an euid can hand it on. The master may create objects
+       * without one (seteuid(0), or no get_root_uid()): its backbone objects get the
+       * creator name for uid like everything else, not uid 0. */
+      if (backbone_uid && current_object->euid && !strcmp (backbone_uid->name, creator_name))
         {
           /*
           * The object is loaded from backbone. This is trusted, so we let it
